@@ -132,7 +132,10 @@ var c09fRes = [2]string{"batch-cpu", "batch-memory"}
 func TestVerifC09Policy(t *testing.T) {
 	env := mc.LoadEnv()
 	var rc c09fCase
-	if _, ok := env.ReplayData(&rc); ok {
+	if part, ok := env.ReplayData(&rc); ok {
+		if part != "policy-function" {
+			return
+		}
 		out, ps := c09fRun(&rc)
 		fmt.Printf("REPLAY case=%+v published=%v panic=%q\n", rc, out, ps)
 		return
